@@ -1,4 +1,5 @@
 import Cvise.Model.World
+import Cvise.Gen.World
 /-!
 # C04 — originals are preserved (`backup_test_cases` over a file map)
 -/
@@ -73,5 +74,16 @@ theorem backup_creates (tcs : List String) : ∀ (fs : FS) (f : String) (b : Byt
             simp only [beq_eq_false_iff_ne, ne_eq]; exact fun h => hsame h.symm
           simp [hn, List.lookup, hne]
       · exact ih fs f b hfr hb hn
+
+/-- whenever a pass completes the modes of the test cases are the original ones, whatever happened to them during the
+    pass (`Gen.restoreModeAtPassEnd` is read off `run_pass` on every run) -/
+theorem modes_back_when_pass_completes (orig : List Nat) (steps : List (List Nat → List Nat)) :
+    passModes Gen.restoreModeAtPassEnd orig steps = orig := by
+  unfold passModes
+  rw [show Gen.restoreModeAtPassEnd = true from by decide]
+  rfl
+
+/-- without the call at the end a pass that resets the mode and accepts nothing leaves the file at 0600 -/
+theorem modes_lost_without_restore : passModes false [0o640] [fun _ => [0o600]] = [0o600] := by decide
 
 end Cvise.C04
